@@ -1,7 +1,94 @@
 import ZixModel.Model.Path
 import ZixModel.Spec.Cpp17Path
+import ZixModel.Lemmas.PathDecomp
+/-! # C10 — path decomposition and queries follow the C++17 filesystem::path model
+
+Property theorems only; helper lemmas live in `ZixModel/Lemmas/PathDecomp.lean`.
+Strings are NUL-free byte lists (`0 ∉ s`): C strings. -/
 namespace Zix.C10
-open Zix.Path
+open Zix.Path Zix.Path.Dec
+
+/-- Every returned view is a slice of the input: `begin ≤ end ≤ length`. -/
+theorem views_are_slices (s : List Nat) (h0 : 0 ∉ s) :
+    ∀ r ∈ [rootDirRange s, rootPathRange s, relativeRange s, parentRange s, filenameRange s, stemRange s, extensionRange s],
+      r.1 ≤ r.2 ∧ r.2 ≤ s.length := by
+  have _ := h0
+  have hk := leadingSeps_le s
+  have hroot : (rootDirRange s).1 ≤ (rootDirRange s).2 ∧ (rootDirRange s).2 ≤ s.length := by
+    rw [rootDirRange_eq]; simp only; omega
+  have hname : (filenameRange s).1 ≤ (filenameRange s).2 ∧ (filenameRange s).2 ≤ s.length := by
+    rcases filenameRange_bounds s with h | ⟨g, hg, _, hlt⟩
+    · rw [h]; simp
+    · rw [hg]; simp only; omega
+  intro r hr
+  simp only [List.mem_cons, List.not_mem_nil, or_false] at hr
+  rcases hr with rfl | rfl | rfl | rfl | rfl | rfl | rfl
+  · exact hroot
+  · exact hroot
+  · rw [relativeRange_eq]; simp only; omega
+  · exact parentRange_bounds s
+  · exact hname
+  · rcases stemRange_cases s with ⟨h, _⟩ | ⟨g, _, _, _, _, hst, h1, h2⟩
+    · rw [h]; exact hname
+    · rw [hst]; simp only; omega
+  · rcases stemRange_cases s with ⟨h, _⟩ | ⟨g, _, _, _, _, hst, h1, h2⟩
+    · have := extensionRange_of_stem_eq s h; omega
+    · unfold extensionRange; rw [hst]
+      have : Range.isEmpty (g, rewindToDot s g (s.length - 1)) = false := by
+        simp [Range.isEmpty]; omega
+      simp only [this]; simp; omega
+
+/-- `has_X` is true exactly when X is non-empty (the harness's order: root_path, root_name,
+root_directory, relative_path, parent_path, filename, stem, extension), and is_absolute. -/
+theorem has_iff_nonempty (s : List Nat) (h0 : 0 ∉ s) :
+    queries s = [ decide (slice s (rootPathRange s) ≠ []), false, decide (slice s (rootDirRange s) ≠ []),
+                  decide (slice s (relativeRange s) ≠ []), decide (slice s (parentRange s) ≠ []),
+                  decide (slice s (filenameRange s) ≠ []), decide (slice s (stemRange s) ≠ []),
+                  decide (slice s (extensionRange s) ≠ []), decide (s.head? = some sep) ] := by
+  have hv := views_are_slices s h0
+  simp only [List.mem_cons, List.not_mem_nil, or_false, forall_eq_or_imp, forall_eq] at hv
+  obtain ⟨h1, h2, _, h4, h5, h6, h7⟩ := hv
+  unfold queries
+  rw [not_isEmpty_eq s _ h1.1 h1.2, not_isEmpty_eq s _ h2.1 h2.2, not_isEmpty_eq s _ h4.1 h4.2,
+    not_isEmpty_eq s _ h5.1 h5.2, not_isEmpty_eq s _ h6.1 h6.2, not_isEmpty_eq s _ h7.1 h7.2,
+    hasRelative_eq s h0, isAbsolute_eq]
+
+/-- filename is stem followed by extension, and the two views are adjacent inside the filename view. -/
+theorem filename_eq_stem_append_extension (s : List Nat) (h0 : 0 ∉ s) :
+    slice s (filenameRange s) = slice s (stemRange s) ++ slice s (extensionRange s) ∧
+    (¬ (filenameRange s).isEmpty → (stemRange s).1 = (filenameRange s).1 ∧
+      ((extensionRange s).isEmpty ∨ ((stemRange s).2 = (extensionRange s).1 ∧ (extensionRange s).2 = (filenameRange s).2))) := by
+  have _ := h0
+  rcases stemRange_cases s with ⟨h, _⟩ | ⟨g, hname, _, _, _, hst, h1, h2⟩
+  · have he := extensionRange_of_stem_eq s h
+    rw [h, slice_eq_nil_of_eq s _ he.1, List.append_nil]
+    refine ⟨rfl, fun _ => ⟨rfl, Or.inl ?_⟩⟩
+    rw [isEmpty_iff]; exact he.1
+  · have he := extensionRange_of_stem s g _ hst h1
+    rw [he, hst, hname]
+    refine ⟨slice_append s g _ s.length (by omega) (by omega), fun _ => ⟨rfl, Or.inr ⟨rfl, rfl⟩⟩⟩
+
+/-- Names and the relative path are textually what the C++17 rules give. -/
+theorem decomp_text_eq_cpp17 (s : List Nat) (h0 : 0 ∉ s) :
+    slice s (filenameRange s) = PathSpec.filename s ∧
+    slice s (stemRange s) = PathSpec.stem s ∧
+    slice s (extensionRange s) = PathSpec.extension s ∧
+    slice s (relativeRange s) = PathSpec.relativeText s := by
+  have _ := h0
+  exact ⟨slice_filenameRange s, slice_stemRange s, slice_extensionRange s, slice_relativeRange s⟩
+
+/-- Root directory, root path and parent path denote the same path as the C++17 rules give
+(same root flag and same element sequence; zix takes the last separator of a repeated root). -/
+theorem root_parent_same_path (s : List Nat) (h0 : 0 ∉ s) :
+    slice s (rootDirRange s) = PathSpec.rootDirText s ∧
+    slice s (rootPathRange s) = PathSpec.rootDirText s ∧
+    PathSpec.parse (slice s (parentRange s)) = PathSpec.parent s := by
+  have _ := h0
+  exact ⟨slice_rootDirRange s, slice_rootDirRange s, parse_slice_parentRange s⟩
+
+/-- is_absolute / is_relative on POSIX: exactly the paths with a root directory. -/
+theorem is_absolute_iff (s : List Nat) : isAbsolute s = (PathSpec.parse s).root := by
+  cases s <;> rfl
 
 /-- `zix_path_preferred` is the identity on POSIX (the only separator is the preferred one). -/
 theorem preferred_id_posix (s : List Nat) : preferred s = s := by
@@ -13,5 +100,9 @@ theorem preferred_id_posix (s : List Nat) : preferred s = s := by
     by_cases h : isSep c = true
     · simp only [h, if_true]; unfold isSep at h; simp at h; rw [h]
     · simp [h]
+
+/-! ## non-vacuity: "//a/b.c.d" -/
+example : slice [47, 47, 97, 47, 98, 46, 99, 46, 100] (extensionRange [47, 47, 97, 47, 98, 46, 99, 46, 100]) = [46, 100] := by decide
+example : parentRange [47, 47, 97, 47, 98, 46, 99, 46, 100] = (1, 3) := by decide
 
 end Zix.C10
